@@ -123,3 +123,60 @@ pub proof fn lemma_msg_ren(out: Seq<u8>, p: Seq<u8>, qe2: int, o2: int, o3: int,
     lemma_rrs_recs(out, qe2 + 4, be16(p, 6) as int, SecT::Answer, None);
     lemma_rrs_recs(out, o2, be16(p, 8) as int, SecT::NameServers, None);
 }
+// C07 "renaming a name to itself leaves the message unchanged", name level: with target == source the rewritten name is the name itself up to ASCII
+// case (so every name clause of msg_ren reads "equal to the input's expanded name up to case"), and the call cannot fail with TooLong
+pub proof fn lemma_rename_identity(nm: Seq<u8>, src: Seq<u8>, sfx: bool)
+    requires nm.len() <= 255
+    ensures eq_ci(renamed_name(nm, src, src, sfx), nm), !(replace_spec(nm, src, src, sfx) is TooLong)
+{
+    if let Rep::New(w) = replace_spec(nm, src, src, sfx) {
+        let off = nm.len() - src.len();
+        assert forall|k: int| 0 <= k < w.len() implies lower(#[trigger] w[k]) == lower(nm[k]) by {
+            if k >= off { assert(w[k] == src[k - off]); assert(lower(nm.subrange(off, nm.len() as int)[k - off]) == lower(src[k - off])); }
+        }
+    }
+}
+// ---- the EDNS summary survives renaming: corresponding runs have their OPT record at the same index, with the same fixed fields and option list
+pub proof fn lemma_ren_opt_at(v: Seq<u8>, sv: int, p: Seq<u8>, sp: int, n: int, tg: Seq<u8>, src: Seq<u8>, sfx: bool)
+    requires recs_ren(v, sv, p, sp, n, tg, src, sfx), recs_all(v, sv, n), recs_all(p, sp, n), 0 <= sv <= v.len(), 0 <= sp <= p.len(),
+    ensures opt_at(v, sv, n) is None <==> opt_at(p, sp, n) is None,
+        opt_at(v, sv, n) matches Some(ov) ==> ({ let op = opt_at(p, sp, n).unwrap();
+            v[ov + 4] == p[op + 4] && v[ov + 5] == p[op + 5] && be16(v, ov + 6) == be16(p, op + 6)
+            && opts(v, ov + 10, ov + 10 + be16(v, ov + 8)) == opts(p, op + 10, op + 10 + be16(p, op + 8)) }),
+    decreases n
+{
+    if n > 0 {
+        lemma_rec_bounds(v, sv); lemma_rec_bounds(p, sp);
+        let ho = rec_ne(v, sv); let ne = rec_ne(p, sp);
+        assert(v.subrange(ho, ho + 8) == p.subrange(ne, ne + 8));
+        let a = v.subrange(ho, ho + 8); let b = p.subrange(ne, ne + 8);
+        assert(a[0] == b[0] && a[1] == b[1] && a[4] == b[4] && a[5] == b[5] && a[6] == b[6] && a[7] == b[7]);
+        assert(v[ho] == p[ne] && v[ho + 1] == p[ne + 1] && v[ho + 4] == p[ne + 4] && v[ho + 5] == p[ne + 5] && v[ho + 6] == p[ne + 6] && v[ho + 7] == p[ne + 7]);
+        assert(be16(v, ho) == be16(p, ne));
+        if is_opt(p, sp) {
+            let l = be16(p, ne + 8) as int; let d = ne + 10; let d2 = ho + 10;
+            assert(be16(v, ho + 6) == be16(p, ne + 6));
+            assert(v.subrange(d2, d2 + l) == p.subrange(d, d + l));
+            assert forall|i: int| d <= i < d + l implies p[i] == v[i - d + d2] by { assert(v.subrange(d2, d2 + l)[i - d] == p.subrange(d, d + l)[i - d]); }
+            lemma_opts_shift(p, d, d + l, v, d2);
+        } else {
+            lemma_sec_end_bounds(v, rec_end(v, sv), n - 1); lemma_sec_end_bounds(p, rec_end(p, sp), n - 1);
+            lemma_ren_opt_at(v, rec_end(v, sv), p, rec_end(p, sp), n - 1, tg, src, sfx);
+        }
+    }
+}
+pub proof fn lemma_ren_edns(v: Seq<u8>, p: Seq<u8>, tg: Seq<u8>, src: Seq<u8>, sfx: bool)
+    requires wf_packet(v), wf_packet(p), msg_ren(v, p, tg, src, sfx)
+    ensures ({ let n = be16(p, 10) as int; let sv = sec_start(v, Section::Additional); let sp = sec_start(p, Section::Additional);
+        sec_count(v, Section::Additional) == n
+        && (opt_at(v, sv, n) is None <==> opt_at(p, sp, n) is None)
+        && (opt_at(v, sv, n) matches Some(ov) ==> ({ let op = opt_at(p, sp, n).unwrap();
+            v[ov + 4] == p[op + 4] && v[ov + 5] == p[op + 5] && be16(v, ov + 6) == be16(p, op + 6)
+            && opts(v, ov + 10, ov + 10 + be16(v, ov + 8)) == opts(p, op + 10, op + 10 + be16(p, op + 8)) })) }),
+{
+    lemma_wf_packet_bytes(v); lemma_wf_bytes_facts(v);
+    lemma_wf_packet_bytes(p); lemma_wf_bytes_facts(p);
+    assert forall|i: int| 0 <= i < 12 implies v[i] == p[i] by { assert(v.subrange(0, 12)[i] == p.subrange(0, 12)[i]); }
+    assert(be16(v, 10) == be16(p, 10));
+    lemma_ren_opt_at(v, sec_start(v, Section::Additional), p, sec_start(p, Section::Additional), be16(p, 10) as int, tg, src, sfx);
+}
